@@ -408,6 +408,8 @@ func (r *RouteStmt) Format(prefix ...string) string {
 		if r.Response.Body == nil {
 			r.Response.RParen = transferTokenNode(r.Response.RParen, ignoreHeadComment())
 			if r.Request != nil {
+				// "returns ()" is dropped: format the request as if it were the end of the route
+				r.Request.RParen = transferTokenNode(r.Request.RParen, ignoreHeadComment())
 				w.Write(withNode(methodNode, r.Path, r.Request), expectSameLine())
 			} else {
 				w.Write(withNode(methodNode, r.Path), expectSameLine())
